@@ -244,6 +244,7 @@ func (fc *funcCtx) transfer(from, to *ssa.BasicBlock, st *State) (*ssa.BasicBloc
 	}
 	fc.havoc(st, l)
 	fc.rangeBoundFact(st, l)
+	fc.ownSliceFacts(st, l)
 	env = fc.localEnv(st, l)
 	for _, inv := range spec.Invariants {
 		st.assume(fc.e.cevalBool(inv.E, env))
@@ -1484,4 +1485,92 @@ func (fc *funcCtx) rangeBoundFact(st *State, l *Loop) {
 		return
 	}
 	st.assume(and(app("<=", "(- 1)", pos.T), app("<=", plus(pos.T, "1"), n.T)))
+}
+
+
+// ownGrownSlices: local slice variables whose every assignment is nil, make, a composite literal, a
+// re-slice of the variable itself, or append to the variable itself, and whose address goes nowhere
+// else. Whatever such a variable holds was allocated by this call (or it has no capacity): true
+// initially (zero value), kept by each of those assignments. The fact is the language's, not the
+// loop's, so a loop that appends to such a variable needs no "fresh" invariant for it.
+func (fc *funcCtx) ownGrownSlices() map[*ssa.Alloc]bool {
+	if fc.ownSlicesOK {
+		return fc.ownSlices
+	}
+	fc.ownSlicesOK = true
+	fc.ownSlices = map[*ssa.Alloc]bool{}
+	loadOf := func(v ssa.Value, al *ssa.Alloc) bool {
+		u, ok := v.(*ssa.UnOp)
+		return ok && u.Op == token.MUL && u.X == ssa.Value(al)
+	}
+	var freshOrSelf func(v ssa.Value, al *ssa.Alloc) bool
+	freshOrSelf = func(v ssa.Value, al *ssa.Alloc) bool {
+		switch x := v.(type) {
+		case *ssa.Const:
+			return x.Value == nil
+		case *ssa.MakeSlice:
+			return true
+		case *ssa.Slice:
+			if a2, ok := x.X.(*ssa.Alloc); ok && a2.Heap && (a2.Comment == "slicelit" || a2.Comment == "makeslice" || a2.Comment == "varargs") {
+				return true
+			}
+			return loadOf(x.X, al)
+		case *ssa.Call:
+			if bi, ok := x.Call.Value.(*ssa.Builtin); ok && bi.Name() == "append" && len(x.Call.Args) > 0 {
+				a0 := x.Call.Args[0]
+				return loadOf(a0, al) || freshOrSelf(a0, al)
+			}
+		}
+		return false
+	}
+	for _, b := range fc.fn.Blocks {
+		for _, ins := range b.Instrs {
+			al, ok := ins.(*ssa.Alloc)
+			if !ok {
+				continue
+			}
+			pt, ok := al.Type().Underlying().(*types.Pointer)
+			if !ok {
+				continue
+			}
+			if _, isSlice := pt.Elem().Underlying().(*types.Slice); !isSlice {
+				continue
+			}
+			good := true
+			refs := al.Referrers()
+			if refs == nil {
+				continue
+			}
+			for _, r := range *refs {
+				switch x := r.(type) {
+				case *ssa.Store:
+					if x.Addr != ssa.Value(al) || !freshOrSelf(x.Val, al) {
+						good = false
+					}
+				case *ssa.UnOp:
+					if x.Op != token.MUL {
+						good = false
+					}
+				case *ssa.DebugRef:
+				default:
+					good = false
+				}
+			}
+			if good {
+				fc.ownSlices[al] = true
+			}
+		}
+	}
+	return fc.ownSlices
+}
+
+func (fc *funcCtx) ownSliceFacts(st *State, l *Loop) {
+	for al := range fc.ownGrownSlices() {
+		if !l.Cells[al] {
+			continue
+		}
+		if sv, ok := st.cells[al].(SliceV); ok {
+			st.assume(or(app("=", sv.Cap, "0"), app(">=", sv.Ref, st.entryBase)))
+		}
+	}
 }
